@@ -356,6 +356,12 @@ def xmdStays : (List OpO × Probe) × Nat :=
   (([.new .atlas, .translate 0 jetPt [] okRes, .addXmd 0 [("docker", "[\"docker\", \"img\"]")],
      .translate 0 badWrite [] failWriteRes], ⟨.atlas, [], jetPt, [dockerMd]⟩), 0)
 
+/-- (h) the caller's AST object is translated a second time: its `MetaData` nodes were removed by the
+first translation, the declaration `xAOD::Jet::pt → int` is not seen again (history and the probe
+AS SUBMITTED; what the executor translates is `reuseProbe` of it) -/
+def reusedAst : (List OpO × Probe) × Nat :=
+  (([.new .atlas, .translate 0 jetPt [ptInt] okRes], ⟨.atlas, [], jetPt, [ptInt]⟩), 0)
+
 end Witness
 
 /-- shape of a history + probe: everything except opaque payload strings (used by the driver to
